@@ -19,6 +19,11 @@ shape("cfg_writer", _MF + "dependency_management/setupcfg_writer.py", ["C14"],
       ["find_leading_whitespace", "added_line_nums_strategy", "SetupCfgWriter.add_to_file", "SetupCfgWriter.build_new_lines"],
       doc="SetupCfgWriter.build_new_lines/add_to_file (strip, index of first equal stripped line, newline/comma branch) and its dry_run guard")
 
+shape("cfg_last_line", _MF + "dependency_management/setupcfg_writer.py", ["C14"],
+      "cfg_last_line_form", "cfg_last_line", "LastLineTerminated",
+      ["SetupCfgWriter.add_to_file"],
+      doc="SetupCfgWriter.add_to_file: is a last line without newline terminated before the new lines are built (repair) or left as read (pinned)")
+
 shape("pyproject_writer", _MF + "dependency_management/pyproject_writer.py", ["C14"],
       "pyproject_writer_guard", "dry_guard", "DryGuarded",
       ["PyprojectWriter.add_to_file", "PyprojectWriter._parse_file"],
